@@ -30,6 +30,36 @@
 #include <time.h>
 #include <unistd.h>
 
+#ifdef VERIF_TSAN_SCHED
+extern "C" void AnnotateIgnoreSyncBegin(const char* file, int line);
+extern "C" void AnnotateIgnoreSyncEnd(const char* file, int line);
+extern "C" void AnnotateIgnoreReadsBegin(const char* file, int line);
+extern "C" void AnnotateIgnoreReadsEnd(const char* file, int line);
+extern "C" void AnnotateIgnoreWritesBegin(const char* file, int line);
+extern "C" void AnnotateIgnoreWritesEnd(const char* file, int line);
+// RAII: inside, ThreadSanitizer neither records memory accesses nor derives happens-before from synchronisation.
+// Used around every piece of scheduler code, so the baton hand-over does not order the worker threads for TSan:
+// the only synchronisation it sees is the containers' own.
+struct TsanBlind
+{
+    TsanBlind()
+    {
+        AnnotateIgnoreSyncBegin(__FILE__, __LINE__);
+        AnnotateIgnoreReadsBegin(__FILE__, __LINE__);
+        AnnotateIgnoreWritesBegin(__FILE__, __LINE__);
+    }
+    ~TsanBlind()
+    {
+        AnnotateIgnoreWritesEnd(__FILE__, __LINE__);
+        AnnotateIgnoreReadsEnd(__FILE__, __LINE__);
+        AnnotateIgnoreSyncEnd(__FILE__, __LINE__);
+    }
+};
+#define VERIF_TSAN_BLIND() TsanBlind verif_tsan_blind_
+#else
+#define VERIF_TSAN_BLIND() ((void)0)
+#endif
+
 namespace
 {
 using cs::Op;
@@ -270,6 +300,7 @@ extern "C" void cappuccino_verif_before_lock(const void* m)
     Scheduler* S = g_sched;
     if (!S || tl_id < 0)
         return;
+    VERIF_TSAN_BLIND();
     std::unique_lock<std::mutex> lk(S->mu);
     ++S->hook_hits;
     S->point(lk, tl_id);
@@ -299,6 +330,7 @@ extern "C" void verif_value_point()
     Scheduler* S = g_sched;
     if (!S || tl_id < 0)
         return;
+    VERIF_TSAN_BLIND();
     std::unique_lock<std::mutex> lk(S->mu);
     if (S->current == -2)
         return;
@@ -310,6 +342,7 @@ extern "C" void cappuccino_verif_after_unlock(const void* m)
     Scheduler* S = g_sched;
     if (!S || tl_id < 0)
         return;
+    VERIF_TSAN_BLIND();
     std::unique_lock<std::mutex> lk(S->mu);
     S->owner[m] = -1;
 }
@@ -358,13 +391,19 @@ History run_concurrent(const Program& p, const std::vector<int>& choices)
             const int id = static_cast<int>(t);
             tl_id        = id;
             {
+                VERIF_TSAN_BLIND();
                 std::unique_lock<std::mutex> lk(S.mu);
                 S.cv.wait(lk, [&] { return S.current == id || S.current == -2; });
             }
-            for (size_t j = 0; j < p.threads[t].size() && S.current != -2; ++j)
+            auto aborted = [&]() {
+                VERIF_TSAN_BLIND();
+                return S.current == -2;
+            };
+            for (size_t j = 0; j < p.threads[t].size() && !aborted(); ++j)
             {
                 OpRec& r = h.ops[t][j];
                 {
+                    VERIF_TSAN_BLIND();
                     std::unique_lock<std::mutex> lk(S.mu);
                     S.point(lk, id); // schedule point: invocation
                     if (S.current == -2)
@@ -374,12 +413,14 @@ History run_concurrent(const Program& p, const std::vector<int>& choices)
                 }
                 r.result = run_op(X, *box, p.threads[t][j], uid_thread(t, j), p.uni);
                 {
+                    VERIF_TSAN_BLIND();
                     std::unique_lock<std::mutex> lk(S.mu);
                     r.resp       = ++S.clock;
                     S.cur_op[t] = nullptr;
                 }
             }
             {
+                VERIF_TSAN_BLIND();
                 std::unique_lock<std::mutex> lk(S.mu);
                 S.finished[t] = true;
                 if (S.current != -2)
@@ -388,6 +429,7 @@ History run_concurrent(const Program& p, const std::vector<int>& choices)
             tl_id = -1;
         });
     {
+        VERIF_TSAN_BLIND();
         std::unique_lock<std::mutex> lk(S.mu);
         if (T == 0)
             S.current = -2;
@@ -581,6 +623,8 @@ bool interleaved(const History& h, bool* range_involved, const Program& p)
     return any;
 }
 
+bool g_race_only = false; // scheduled-TSan variant: ThreadSanitizer is the oracle, no linearizability search
+
 void check_history(const Program& p, const History& h, ProgResult& R, const std::vector<int>& sched_used)
 {
     ++R.schedules;
@@ -601,6 +645,8 @@ void check_history(const Program& p, const History& h, ProgResult& R, const std:
         R.failing_schedule = sched_used;
         return;
     }
+    if (g_race_only)
+        return;
     LinResult L = linearizable(p, h);
     R.nodes += L.nodes;
     if (L.inconclusive)
@@ -923,6 +969,9 @@ int main(int argc, char** argv)
     if (argc < 2)
         return 2;
     std::string cmd = argv[1], profile = "all", file, property = "C06";
+#ifdef VERIF_TSAN_SCHED
+    g_race_only = true;
+#endif
     long        exhaust = std::getenv("VERIF_SCHED_EXHAUST") ? std::atol(std::getenv("VERIF_SCHED_EXHAUST")) : 40;
     int         max_ops = std::getenv("VERIF_SCHED_MAXOPS") ? std::atoi(std::getenv("VERIF_SCHED_MAXOPS")) : 2;
     std::string kinds_arg;
@@ -949,6 +998,8 @@ int main(int argc, char** argv)
             ;
         else if (a == "--sequential")
             sequential_only = true;
+        else if (a == "--race-only")
+            g_race_only = true;
         else
             file = a;
     }
